@@ -100,6 +100,51 @@ def run(ctx, b, broken):
                 pycparser.parse_file(src, use_cpp=True, cpp_args=["-std=c99", "-I" + fake])
             except Exception as e:
                 su.violation(f"#include <{a}>\n#include <{b_}>", f"{b_} included after {a} fails: {type(e).__name__}: {str(e)[:120]} (macros of the first that occur in the second: {sorted(macros_after[a] & idents[b_])[:4]})")
+        # every typedef name a header's own text declares is usable after including that header alone, and after including
+        # ALL headers together (in directory order and reversed); two headers with the same include-guard macro are tried as a pair
+        own = {}
+        guards = {}
+        for h in headers:
+            txt = open(os.path.join(fake, h)).read()
+            # names the header's own text declares by typedef AND that survive preprocessing of the header alone
+            # (a typedef under a conditional that is false for this dialect is not expected)
+            alone = cpp_out(f"#include <{h}>\n", [])
+            defined_alone = set(re.findall(r"\btypedef\s+[^;{}]*?\b(\w+)\s*;", alone))
+            own[h] = sorted(set(re.findall(r"^[ \t]*typedef\s+[^;{}]*?\b(\w+)\s*;", txt, re.M)) & defined_alone)
+            m = re.search(r"#\s*ifndef\s+(\w+)\s*\n\s*#\s*define\s+\1\b", txt)
+            if m:
+                guards.setdefault(m.group(1), []).append(h)
+
+        def usable(incs, names, what):
+            src = os.path.join(tmp, "own.c")
+            with open(src, "w") as f:
+                f.write("".join(f"#include <{h_}>\n" for h_ in incs))
+                f.write("".join(f"{t} u_{i};\n" for i, t in enumerate(names)))
+            ctx.evaluations += 1
+            ctx.count("suite:" + what)
+            ctx.nontriv((what, tuple(incs[:3]), len(incs)))
+            try:
+                ast = pycparser.parse_file(src, use_cpp=True, cpp_args=["-std=c99", "-I" + fake])
+                got = {e.name for e in ast.ext if isinstance(e, c_ast.Decl)}
+                miss = [t for i, t in enumerate(names) if f"u_{i}" not in got]
+                if miss:
+                    su.violation("\n".join(f"#include <{h_}>" for h_ in incs[:6]), f"{what}: type names {miss[:4]} declared by the headers are not usable as types")
+            except Exception as e:
+                su.violation("\n".join(f"#include <{h_}>" for h_ in incs[:6]) + (f"\n... ({len(incs)} headers)" if len(incs) > 6 else ""),
+                             f"{what}: {type(e).__name__}: {str(e)[:120]}")
+        real = [h for h in headers if not os.path.basename(h).startswith("_")]
+        for h in real:
+            if own[h]:
+                usable([h], own[h], "own-typedefs")
+        allnames = sorted({t for h in real for t in own[h]} | set(tds))
+        usable(real, allnames, "all-headers")
+        usable(list(reversed(real)), allnames, "all-headers-reversed")
+        for g_, hs in guards.items():
+            if len(hs) > 1:
+                for a in hs:
+                    for b_ in hs:
+                        if a != b_:
+                            usable([a, b_], sorted(set(own[a]) | set(own[b_])), "shared-include-guard")
         # typedef names usable after including headers in random subsets / orders
         for _ in range(20 if ctx.tier == "quick" else 300):
             sub = ctx.rng.sample(headers, ctx.rng.randint(1, 6))
